@@ -7,7 +7,7 @@ from harness.tlutil import mk_tl, segs_of, mk_sup, enc_sup
 
 PROP = "C05"
 CHECK_MODULE = "Check.C05"
-COQ_IMPORTS = "Model.Timeline"
+COQ_IMPORTS = "Model.AnnotationOps Check.AnnCommon"
 SHARD = 300
 RULE = ("(timeline, other timeline, support as Segment or Timeline): every timeline of <=2 (quick) / <=3 (thorough) "
         "segments x every support of <=2 segments on a 6-point grid (overlapping, abutting, nested, touching support "
@@ -44,15 +44,33 @@ def generate(rng, tier):
             else:
                 sup = ["tl", gen.rand_timeline(rng, regime, maxn=5)]
             cases.append({"regime": regime, "t": t, "other": o, "sup": sup})
+    from harness.annutil import rand_records, LABELS
+    for regime in ("K0", "K4", "K1"):
+        for _ in range(3000 if tier == "thorough" else 300):
+            tr = ["x", "y", 0, 1, "A", "_"]
+            def distinct(recs):
+                seen, out = set(), []
+                for s_, t_, l_ in recs:
+                    if (tuple(s_), str(t_)) not in seen:
+                        seen.add((tuple(s_), str(t_)))
+                        out.append([s_, t_, l_])
+                return out
+            cases.append({"k": "ann", "regime": regime,
+                          "a": distinct(rand_records(rng, regime, nseg=rng.choice([1, 3, 5]), span=12, tracks=tr, allow_empty=0.0)),
+                          "b": distinct(rand_records(rng, regime, nseg=rng.choice([1, 2, 4]), span=12, tracks=tr, allow_empty=0.0))})
     return {"cases": cases, "meta": {"exhaustive": True, "small_scope_cases": nex,
-                                     "sizes": gen.stats(cases, {"n_t": lambda c: len(c["t"]),
-                                                                "sup_kind": lambda c: c["sup"][0]})}}
+                                     "sizes": gen.stats(cases, {"n_t": lambda c: len(c.get("t", c.get("a", []))),
+                                                                "sup_kind": lambda c: c["sup"][0] if "sup" in c else "ann"})}}
 
 
 def run(case):
     tb = TB(case["regime"])
     tb.enter()
     try:
+        if case.get("k") == "ann":
+            from harness.annutil import mk_ann, nm
+            a, b = mk_ann(tb, case["a"]), mk_ann(tb, case["b"])
+            return {"obs": [[[tb.us(s), nm(t)], [tb.us(S), nm(T)]] for (s, t), (S, T) in a.co_iter(b)]}
         t = mk_tl(tb, case["t"], uri="u")
         o = mk_tl(tb, case["other"])
         sup = mk_sup(tb, case["sup"])
@@ -73,6 +91,10 @@ def run(case):
 def encode(case, o):
     e = enc
     eps = REGIMES[case["regime"]]["eps"]
+    if case.get("k") == "ann":
+        from harness.annutil import enc_triples
+        sn = lambda x: e.pair(e.seg(x[0]), e.name(x[1]))
+        return f"KAnnCo {e.z(eps)} {enc_triples(case['a'])} {enc_triples(case['b'])} {e.lst([e.pair(sn(p), sn(q)) for p, q in o['obs']])}"
     co = e.lst([e.pair(e.seg(a), e.seg(b)) for a, b in o["coiter"]])
     mp = e.lst([e.pair(e.seg(k), e.segs(v)) for k, v in o["mapping"]])
     return (f"K {e.z(eps)} {e.segs(case['t'])} {e.segs(case['other'])} {enc_sup(case['sup'])} {co} "
@@ -82,10 +104,17 @@ def encode(case, o):
 
 
 def nontrivial(case, o):
+    if case.get("k") == "ann":
+        return len(o["obs"]) >= 2
     return len(o["loose"]) >= 1 and len(case["t"]) >= 1
 
 
 def shrink(case):
+    if case.get("k") == "ann":
+        for key in ("a", "b"):
+            for i in range(len(case[key])):
+                yield {**case, key: case[key][:i] + case[key][i + 1:]}
+        return
     for s in gen.shrink_segs(case["t"]):
         yield {**case, "t": s}
     for s in gen.shrink_segs(case["other"]):
